@@ -8,14 +8,15 @@
 
   Covered by theorems: escaping (round trip, well-formedness, every writer site that streams an
   input string), the covariance band (clipping, emission order, packed reconstruction), the index
-  lists.  Explored only (end-to-end search in tools/props/c12.py): number formatting/parsing, the
-  2000-line reader automaton, HTML/text/Octave agreement, compare-xyz, gama-local-deformation.
+  lists, the writer ∘ reader round trip of point / orientation / observation records under the
+  satisfiable number law of b-C13 (`Codec.Printer`).
 -/
 import Gama.Lemmas.XmlEsc
 import Gama.Lemmas.CovBand
 import Gama.Lemmas.ReaderPoint
+import Gama.Lemmas.XmlRecordsCodec
 namespace Gama.Props.C12
-open Gama Gama.XmlEsc Gama.CovBand Gama.Gen.XmlSites Gama.ReaderPoint
+open Gama Gama.XmlEsc Gama.CovBand Gama.Gen.XmlSites Gama.ReaderPoint Gama.XmlRec
 
 /-! ## escaping -/
 
@@ -150,6 +151,51 @@ theorem C12_reader_point_no_z {K : Type} (zero : K) (adjusted : Bool) (k : Nat) 
     p.hz = false ∧ p.z = zero ∧ p.indz = 0 ∧ p.cz = false :=
   endV_noZ zero adjusted k id evs h p k' hp
 
+/-! ## writer ∘ reader on the records
+
+  `C : Gama.Export.Codec K` with `C.Printer q` is the number law of b-C13: reading what was printed gives the quantised
+  number `q x` (`q = id` for an exact codec; `decCodec`/`decQ` is a genuine fixed-digits printer).  Identifiers have no
+  leading / trailing white space (`PointID::init`), which is what `get_string` strips. -/
+
+/-- one `<point>` of `<fixed>` / `<approximate>` / `<adjusted>`: whatever earlier points left in the reader
+    (`st` arbitrary: a plane point after a 3D point, a height point after a constrained one …), gama's reader accepts the
+    children the writer produced and pushes the written point: same id, has/constrained flags of the section's rule,
+    coordinates up to the number codec, absent coordinates 0, adjustment indexes `k+1 …` under `<adjusted>`, 0 elsewhere -/
+theorem C12_point_roundtrip {K : Type} [Scalar K] (C : Gama.Export.Codec K) (q : K → K) (P : C.Printer q)
+    (zero : K) (st : PState K) (s : Sect) (f : Frame K) (p : LPoint K) (hid : Trimmed p.id)
+    (ha : st.adjusted = (s == .adjusted)) :
+    ∃ r, readPoint (numOf C) zero st (writePoint (numOf C) s f p) = .ok r ∧
+      r.tmp = expectPoint q zero s f st.k p ∧ r.k = nextK s st.k p ∧
+      r.out = st.out ++ [expectPoint q zero s f st.k p] ∧ r.adjusted = st.adjusted :=
+  readPoint_writePoint (numOf C) q (numOf_law P) zero st s f p hid ha
+
+/-- a whole section, any number of points in any mix and order: the reader's list is the list of written points
+    (points the writer skips with `continue` are absent) and the counter ends at the number of adjusted coordinates -/
+theorem C12_section_roundtrip {K : Type} [Scalar K] (C : Gama.Export.Codec K) (q : K → K) (P : C.Printer q)
+    (zero : K) (s : Sect) (f : Frame K) (pts : List (LPoint K)) (hid : ∀ p ∈ pts, Trimmed p.id)
+    (st : PState K) (ha : st.adjusted = (s == .adjusted)) :
+    ∃ r, readPoints (numOf C) zero st (writeSection (numOf C) s f pts) = .ok r ∧
+      r.out = st.out ++ (expectSection q zero s f st.k pts).1 ∧ r.k = (expectSection q zero s f st.k pts).2 ∧
+      r.adjusted = st.adjusted :=
+  readPoints_writeSection (numOf C) q (numOf_law P) zero s f pts hid st ha
+
+/-- `<orientation>` records: id, approximate and adjusted orientation up to the codec, `index = ++tmp_adj_index`
+    continuing after the adjusted coordinates — any number of orientations -/
+theorem C12_orientation_roundtrip {K : Type} [Scalar K] (C : Gama.Export.Codec K) (q : K → K) (P : C.Printer q)
+    (f : Frame K) (os : List (LOri K)) (hid : ∀ o ∈ os, Trimmed o.id) (st : OState K) :
+    ∃ r, readOris (numOf C) st (os.map (writeOri (numOf C) f)) = .ok r ∧ r.k = st.k + os.length ∧
+      r.out = st.out ++ expectOris q f st.k os :=
+  readOris_writeOris (numOf C) q (numOf_law P) f os hid st
+
+/-- an observation element of any of the 13 kinds, with or without `<std-residual>` and `<err-obs>/<err-adj>`: the reader
+    reaches one of its three accepting states and the record is the written one (`from/to`, `left/right` for angles, `id`
+    for coordinates read into `from`; numbers up to the codec; the two error estimates kept as the printed strings) -/
+theorem C12_observation_roundtrip {K : Type} [Scalar K] (C : Gama.Export.Codec K) (q : K → K) (P : C.Printer q)
+    (zero : K) (f : Frame K) (o : LObs K)
+    (hfrom : Trimmed o.from_) (hto : Trimmed o.to) (hbs : Trimmed o.bs) (hfs : Trimmed o.fs) :
+    readObs (numOf C) zero o.kind.tag (writeObs (numOf C) f o) = .ok (expectObs (numOf C) q zero f o) :=
+  readObs_writeObs (numOf C) q (numOf_law P) zero f o hfrom hto hbs hfs
+
 /-! ## non-vacuity -/
 
 -- `<`, `>`, `&`, `'`, `"`, `]]>` and a two-byte UTF-8 character
@@ -186,5 +232,41 @@ example : mixedOut.map (fun p => [p.hxy, p.hz, p.cxy, p.cz]) =
     [[true, true, false, false], [true, false, true, false], [false, true, false, false]] := by decide
 example : (match runPoint (0 : Nat) (sectionStart 0 false) [.id "A", .x 1 false] with
     | .error .xWithoutY => true | _ => false) = true := by decide
+-- the record round trips with the fixed-digits printer of b-C13 (`decCodec`, quantisation `decQ`): a fixed 3D point,
+-- a free 3D point, a constrained plane point whose id has an inner blank, a height point, an unused point
+example : ∃ r, readPoints (numOf Gama.Export.decCodec) 0 (sectionStart 0 true)
+      (writeSection (numOf Gama.Export.decCodec) .adjusted exFrame exPoints) = .ok r ∧
+    r.out = (expectSection Gama.Export.decQ 0 .adjusted exFrame 0 exPoints).1 ∧ r.k = 6 := by
+  obtain ⟨r, h1, h2, h3, _⟩ := C12_section_roundtrip Gama.Export.decCodec Gama.Export.decQ Gama.Export.decCodec_printer
+    0 .adjusted exFrame exPoints exPoints_trimmed (sectionStart 0 true) rfl
+  exact ⟨r, h1, by simpa [sectionStart] using h2, by rw [h3]; decide⟩
+-- the numbers are rounded by the printer (1001+1000 ↦ 2010), the plane point has no height and no height index
+example : (expectSection Gama.Export.decQ 0 .adjusted exFrame 0 exPoints).1.map
+      (fun p => (p.id, [p.x, p.y, p.z], [p.hxy, p.hz, p.cxy, p.cz], [p.indx, p.indy, p.indz])) =
+    [("A", [2010, 4010, 6010], [true, true, false, false], [1, 2, 3]),
+     ("B x", [8010, 10010, 0], [true, false, true, false], [4, 5, 0]),
+     ("C", [0, 0, 12010], [false, true, false, false], [0, 0, 6])] := by decide
+example : (expectSection Gama.Export.decQ 0 .fixed exFrame 0 exPoints).1.map (fun p => (p.id, p.x, p.indx)) =
+    [("F", 1010, 0)] := by decide
+example : (writeSection (numOf Gama.Export.decCodec) .approximate exFrame exPoints).map (fun ls => ls.map (·.tag)) =
+    [["id", "x", "y", "z"], ["id", "X", "Y"], ["id", "z"]] := by decide
+example : ∃ r, readOris (numOf Gama.Export.decCodec) ⟨⟨"", 0, 0, 0⟩, "", 6, []⟩
+      (exOris.map (writeOri (numOf Gama.Export.decCodec) exFrame)) = .ok r ∧ r.k = 8 ∧
+      r.out = expectOris Gama.Export.decQ exFrame 6 exOris := by
+  obtain ⟨r, h1, h2, h3⟩ := C12_orientation_roundtrip Gama.Export.decCodec Gama.Export.decQ Gama.Export.decCodec_printer
+    exFrame exOris exOris_trimmed ⟨⟨"", 0, 0, 0⟩, "", 6, []⟩
+  exact ⟨r, h1, h2, by simpa using h3⟩
+example : (expectOris Gama.Export.decQ exFrame 6 exOris).map (fun o => (o.id, o.index)) = [("A", 7), ("B x", 8)] := by decide
+example : (exObs.map (fun o => (writeObs (numOf Gama.Export.decCodec) exFrame o).map (·.tag))) =
+    [["from", "to", "obs", "adj", "stdev", "qrr", "f", "std-residual", "err-obs", "err-adj"],
+     ["from", "left", "right", "obs", "adj", "stdev", "qrr", "f"],
+     ["id", "obs", "adj", "stdev", "qrr", "f"]] := by decide
+-- an element that stops after <qrr> is refused, as is <y> before <x>
+example : readObs (numOf Gama.Export.decCodec) 0 "distance"
+    [⟨"from", "A"⟩, ⟨"to", "B"⟩, ⟨"obs", "1"⟩, ⟨"adj", "1"⟩, ⟨"stdev", "1"⟩, ⟨"qrr", "1"⟩] = .error .obsAttrMissing := by
+  simp [readObs, bleaves, bleaf, setNum, numOf, Gama.Export.decCodec, clearObs]; decide
+example : (match readPoint (numOf Gama.Export.decCodec) 0 (sectionStart 0 false) [⟨"id", "A"⟩, ⟨"y", "1"⟩] with
+    | .error .illegalContext => true | _ => false) = true := by
+  simp [readPoint, pleaves, pleaf, ptag, pnext]
 
 end Gama.Props.C12
